@@ -75,15 +75,15 @@ def _model_conv_iteration(spec, cfg, cap=400):
     return None
 
 
-def strategy(tier, shard):
+def exact_tie_cases(kinds=("vi", "vi", "rvi", "pvi", "sa")):
     from hypothesis import strategies as st
 
     @st.composite
-    def exact_tie_cases(draw):
+    def _cases(draw):
         """All quantities are dyadic rationals with few bits (gamma in {1/2, 1}, probabilities k/4, integer rewards):
         every float operation of a sweep is exact in numpy and in the solver alike, so an exact tie between the
         measure and the threshold is decidable: the documented rule (strictly below) must NOT stop there."""
-        kind = draw(st.sampled_from(["vi", "vi", "rvi", "pvi", "sa"]))
+        kind = draw(st.sampled_from(list(kinds)))
         nS = draw(st.integers(2, 5))
         nA = draw(st.integers(1, 3))
         wts = draw(st.sampled_from([[1], [1, 1], [3, 1], [2, 1, 1], [1, 1, 1, 1]]))
@@ -107,8 +107,8 @@ def strategy(tier, shard):
         if kind == "rvi":
             cfg["gamma"] = 1.0
         elif kind == "pvi":
-            cfg["gamma"] = 1.0
-            cfg["period"] = draw(st.integers(2, 3))
+            cfg["gamma"] = draw(st.sampled_from([1.0, 0.5]))
+            cfg["period"] = draw(st.integers(2 if cfg["gamma"] == 1.0 else 1, 3))
             cfg["clear"] = False
         else:
             cfg["gamma"] = draw(st.sampled_from([0.5, 0.5, 1.0])) if kind == "vi" else 0.5
@@ -135,6 +135,12 @@ def strategy(tier, shard):
         limits = [draw(st.integers(1, 4)) for _ in range(draw(st.integers(2, 3)))]
         return dict(spec=spec, cfg=cfg, limits=limits, exact=True)
 
+    return _cases()
+
+
+def strategy(tier, shard):
+    from hypothesis import strategies as st
+
     @st.composite
     def cases(draw):
         if draw(st.integers(0, 4)) == 0:
@@ -152,7 +158,9 @@ def strategy(tier, shard):
             cfg["period"] = draw(st.integers(2 if cfg["gamma"] == 1.0 else 1, 5))
             cfg["clear"] = draw(st.booleans())
         else:
-            cfg["gamma"] = draw(st.sampled_from([0.3, 0.6, 0.8, 0.9, 0.95, 1.0] if kind == "vi" else [0.3, 0.6, 0.8, 0.9, 0.95]))
+            # values next to 1 (0.99999, 1 - 1e-7) exercise the threshold formula where (1-gamma)/gamma is tiny
+            cfg["gamma"] = draw(st.sampled_from([0.3, 0.6, 0.8, 0.9, 0.95, 1.0, 0.99999, 0.9999999] if kind == "vi"
+                                                else [0.3, 0.6, 0.8, 0.9, 0.95, 0.99999]))
         cfg["eps"] = float(sc * 10.0 ** draw(st.sampled_from([-4, -3, -2, -1, 0, 1])))
         if kind in ("vi", "sa", "pi"):
             cfg["test"] = draw(st.sampled_from(["span", "max_diff"]))
@@ -272,7 +280,7 @@ def judge(case):
     lay = sut.layout(solver)
     model = _Model(spec, cfg)
     gamma = model.gamma
-    exact = bool(case.get("exact")) and _exact_ok(spec, cfg, sum(limits) + 1) and lay[0] == 1
+    exact = bool(case.get("exact")) and _exact_ok(spec, cfg, sum(limits) + 1) and (lay[0] == 1 or kind != "sa")
     if exact:
         classes.append("exact-arithmetic")
     nxt, rew, prb = ref_mdp.arrays(spec)
